@@ -102,6 +102,8 @@ def describe_cfg(cfg):
          'knobs_c': cfg['knobs_c'].describe(), 'knobs_s': cfg['knobs_s'].describe()}
     if cfg.get('lease'):
         d['lease'] = [list(x) for x in cfg['lease']]
+    if cfg.get('exc_kind'):
+        d['application_exception_type'] = cfg['exc_kind']
     return d
 
 
